@@ -254,9 +254,10 @@ func str(v interface{}) string {
 // Action applies a replica REST action; called by the redirected (*remote.Remote).doAction
 // with the very object the real code would have JSON-encoded.
 func (m *Replica) Action(action string, obj interface{}) error {
-	// "delete" (DELETE /v1/delete fan-out of the volume deletion) is sent by goroutines
-	// that by design run outside the controller lock
-	m.noteCall(action != "open" && action != "delete")
+	// "delete" (DELETE /v1/delete fan-out of the volume deletion) and "setlogging" are sent
+	// by REST handlers that by design run outside the controller lock; neither touches
+	// volume data or membership
+	m.noteCall(action != "open" && action != "delete" && action != "setlogging")
 	m.Actions = append(m.Actions, action)
 	if m.fail("a." + action) {
 		m.FailedActions = append(m.FailedActions, action)
